@@ -360,10 +360,18 @@ func (p *c06) Run(rec *core.Recorder, seed uint64, idx int, tier string) {
 			g[k] = v
 		}
 		if forbid {
+			// the name is taken off the list, or (one case in three) stays on it with the value false: both say "not allowed"
+			revoke := core.Hash64(fmt.Sprint(seed, idx), "revoked-by-false")%3 == 0
 			if kind == "filter" {
 				delete(f, name)
+				if revoke {
+					f[name] = false
+				}
 			} else {
 				delete(g, name)
+				if revoke {
+					g[name] = false
+				}
 			}
 		}
 		if polI%2 == 0 {
